@@ -118,6 +118,15 @@ def choose_pool(rng, lo: int = 3, hi: int = 10) -> list[type]:
         add(rng.choice(_nullable_struct_classes()))
     rng.shuffle(pool)
     pool = pool[:max(lo, want)]
+    if rng.random() < 0.12:
+        # a caller-defined subclass of an entity class together with its base class (in either order)
+        from . import synth
+
+        pair = list(rng.choice(synth.load()))
+        rng.shuffle(pair)
+        pool = [c for c in pool if c not in pair]
+        for c in pair:
+            pool.insert(rng.randrange(len(pool) + 1), c)
     return pool
 
 
